@@ -770,12 +770,22 @@ def walk(term):
         stack.extend(reversed(children(t)))
 
 
-def subst(term, mapping):
+def subst(term, mapping, _memo=None):
+    """Replace sub-terms (memoised: terms are DAGs)."""
+    if _memo is None:
+        _memo = {}
     if not isinstance(term, tuple):
         return term
     if term in mapping:
         return mapping[term]
-    return tuple(subst(x, mapping) if isinstance(x, tuple) else x for x in term)
+    tagged = bool(term) and isinstance(term[0], str)
+    if tagged and term in _memo:
+        return _memo[term]
+    out = tuple(subst(x, mapping, _memo) if isinstance(x, tuple) else x for x in term)
+    if tagged:
+        out = I(out)
+        _memo[term] = out
+    return out
 
 
 def show(term, depth=0, maxdepth=12):
